@@ -213,6 +213,9 @@ def run(ctx):
                               f'`{short(call, 60)}` in {f.short} constructs a second worker object: its constructor registers *it* as an active child, so active_children() yields the '
                               'twin next to - or, once the dead incarnation has been pruned, instead of - the worker the user holds', where=loc(f, call))
     ctx.ob('R3', f'no method of the {n_cls} worker classes constructs a second instance of its own class', True)
+    # 'the workers created by this process': the registry is per process only because every child process starts from a fresh interpreter
+    from ..frame import check_spawn_context
+    check_spawn_context(ctx, 'R3')
     g = ctx.an.cfg(init_f, W)
     reg_calls = [c for c in calls_in(init_f.node) if last_attr(c) == 'register_child']
     ctx.check('R3', 'Worker.__init__ registers the child', len(reg_calls) == 1, 'Worker.__init__', f'register-calls:{len(reg_calls)}',
